@@ -477,3 +477,30 @@ def gen_reattach_font(r):
 def gen_reattach_text(r):
     base = r.choice(["abcd", "abc", "bcde", "abcabc", "abcdabcd", "cdef", "aabbcc", "abcde"])
     return [ord(c) for c in base]
+
+
+def gen_classmap_font(r, which=None):
+    """a font without passes whose Silf class map is hostile in the numbers the loader computes with: class counts around the
+    point where 4 + 2*(numClasses+1) no longer fits 16 bits (Silf versions 2/3), first/last offsets, linear counts"""
+    version = r.choice([0x00020000, 0x00030000, 0x00030000, 0x00040000])
+    if which in ("wrap", "wrap1"):
+        version = 0x00030000 if which == "wrap" else 0x00020000
+    wide = version >= 0x00040000
+    n = r.choice([32763, 32764, 32765, 32765, 32766, 32767, 40000, 65534, 65535]) if which not in ("wrap", "wrap1") else (32765 if which == "wrap" else 32766)
+    nlin = n if r.random() < 0.7 or which in ("wrap", "wrap1") else r.randrange(0, n + 1)
+    true_off = 4 + (4 if wide else 2) * (n + 1)
+    first = r.choice([true_off & (0xFFFFFFFF if wide else 0xFFFF), true_off & 0xFFFF, 0, 4]) if which not in ("wrap", "wrap1") else (true_off & 0xFFFF)
+    last = r.choice([first, first + 2, 65534, 65535, first + 2 * 32767, first + 2 * 40000]) if which not in ("wrap", "wrap1") else 65534
+    mid = r.choice([first, last])
+    offs = [first] + [mid if r.random() < 0.05 else first for _ in range(n - 1)] + [last] if n >= 1 else [first]
+    pack = (lambda x: u32(x)) if wide else (lambda x: u16(x))
+    cm = u16(n) + u16(nlin) + b"".join(pack(o) for o in offs) + bytes(r.randrange(256) for _ in range(r.choice([0, 0, 2, 64])))
+    hdr = ((u32(0x00030000) + u16(0) + u16(0) if version >= 0x00030000 else b"") + u16(NG - 1) + u16(0) + u16(0) + u8(0) + u8(0) + u8(0) + u8(0) + u8(0xFF) + u8(0)
+           + u8(2) + u8(2) + u8(1) + u8(2) + u8(3) + u8(4) + u8(0) + u8(0)
+           + u16(0) + u8(2) + u8(0) + u8(1) + u8(0) + b"\0" * 3 + u8(0) + u8(0) + u8(0) + u16(0))
+    passes_start = len(hdr) + 4 + 8 + len(cm)
+    sub = hdr + u32(passes_start) + u16(0) * 4 + cm + b"\0" * r.choice([1, 1, 4])
+    table = (u32(version) + (u32(0x00050000) if version >= 0x00030000 else b"") + u16(1) + u16(0) + u32(16 if version >= 0x00030000 else 12) + sub)
+    gloc, glat = gloc_glat()
+    return sfnt({'head': head(), 'hhea': hhea(), 'hmtx': hmtx(), 'maxp': maxp(), 'cmap': cmap(), 'Gloc': gloc, 'Glat': glat, 'Feat': feat(), 'Sill': sill(), 'Silf': table})
+
